@@ -13,12 +13,14 @@ M1 (code->spec)  : TraceAmmoProvider.tla recomputes Expected / Stop / Cap / Hist
 """
 import json
 import os
+import random
 import time
 from concurrent.futures import ThreadPoolExecutor
 
 import vlib
 
 PID = "C08"
+RAND_BASE = 10000000
 
 MANIFEST = dict(
     category="model_checking",
@@ -53,6 +55,34 @@ def cases_from(r):
     return out
 
 
+KMS = [(k, p) for k in ("uri", "uris", "raw", "uripost", "jsonline", "jsonarray") for p in (False, True)] + \
+      [(k, False) for k in ("httpscn", "grpcscn", "grpcjson", "json")]
+
+
+def rand_cells(n, max_e, seed):
+    """Seeded random cell COORDINATES (sizes beyond the exhaustive matrix: files longer than the sinks' buffers,
+    more consumers, arbitrary weights).  No expected values here: TLC computes stop/cap, drops cuts that are no
+    cuts, and later judges the observations."""
+    rnd = random.Random(seed * 7919 + 17)
+    out = []
+    for i in range(n):
+        kind, pre = KMS[i % len(KMS)]
+        if kind in ("httpscn", "grpcscn") and rnd.random() < 0.7:
+            f = rnd.choice([1, 1, 2, 5])
+            w = [f * rnd.randint(1, 6) for _ in range(rnd.randint(1, 6))]
+            e = sum(w)
+        else:
+            e = rnd.choice([1, 2, 3, 5, 8, 13, 40, 99, 100, 101, 127, 128, 129, 130, max_e])
+            w = [1] * min(e, max_e)
+            e = len(w)
+        limit = rnd.choice([0, 0, rnd.randint(1, 3 * e + 2), rnd.randint(1, e + 1)])
+        passes = rnd.choice([0, 0, 1, 2, 3, 5])
+        cut = rnd.choice([0, 0, rnd.randint(1, 2 * e + 1)])
+        out.append({"id": RAND_BASE + i, "kind": kind, "preload": pre, "limit": limit, "passes": passes, "w": w,
+                    "nc": rnd.randint(1, 8), "cut": cut})
+    return out
+
+
 def cell_sig(o):
     mode = "preload" if o["preload"] else "stream"
     lim = "limit>0" if o["limit"] else "limit=0"
@@ -83,9 +113,12 @@ def describe(o, inv):
     return base + "invariant %s" % inv
 
 
-def validate(v, obs_path, rows, cfg, timeout):
-    tr = vlib.tlc("TraceAmmoProvider", cfg, env={"VERIF_TRACE": obs_path}, cont=True, timeout=timeout,
-                  workers=8, heap="4g")
+def trace_tlc(obs_path, cfg, timeout, workers=6):
+    return vlib.tlc("TraceAmmoProvider", cfg, env={"VERIF_TRACE": obs_path}, cont=True, timeout=timeout,
+                    workers=workers, heap="4g")
+
+
+def judge(v, tr, rows):
     if tr.error:
         raise vlib.MachineryError("TraceAmmoProvider failed: %s\n%s" % (tr.kind, tr.out[-3000:]))
     if tr.distinct != len(rows) + 1:
@@ -103,31 +136,39 @@ def validate(v, obs_path, rows, cfg, timeout):
         bad_cells.add(o["id"])
         v.violation("%s inv=%s" % (cell_sig(o), inv), describe(o, inv),
                     replay_obj={"invariant": inv, "observed": o}, replay_name="cell_%d_%s.json" % (o["id"], inv))
-    return tr, bad_cells
+    return bad_cells
+
+
+QUICK_NEGS = ["preload_err", "scn_noclose", "grpc_spin", "array_single"]     # the pre-fix behaviours
 
 
 def run(tier, v):
     thorough = tier == "thorough"
     states = trans = 0
-    # 1. design level: exhaustive + negative controls (in parallel: they are small)
     exh = ["AmmoProvider_exh.cfg", "AmmoProvider_exh_big.cfg", "AmmoProvider_live.cfg"] if thorough \
         else ["AmmoProvider_exh_quick.cfg"]
-    gen_cfg = "AmmoProvider_gen_big.cfg" if thorough else "AmmoProvider_gen.cfg"
+    negs = NEGS if thorough else QUICK_NEGS
+    gen_cfg = "AmmoProvider_gen_thorough.cfg" if thorough else "AmmoProvider_gen_quick.cfg"
+    d = vlib.scratch()
+    rpath = os.path.join(d, "randcells.ndjson")
+    vlib.write_ndjson(rpath, rand_cells(2500 if thorough else 240, 300 if thorough else 140, vlib.seed()))
 
+    # 1. design level: exhaustive + negative controls; the case table (small jobs, run side by side)
     def one(job):
         kind, cfg = job
+        if kind == "gen":
+            return job, vlib.tlc("AmmoProviderMC", cfg, workers=2, heap="3g", deadlock=False, timeout=900,
+                                 env={"VERIF_CELLS": rpath})
         if kind == "exh":
             return job, vlib.tlc("AmmoProviderMC", cfg, workers=6, heap="6g", deadlock=False, timeout=3000)
-        if kind == "neg":
-            return job, vlib.tlc("AmmoProviderMC", cfg, workers=2, heap="2g", deadlock=False, timeout=600)
-        return job, vlib.tlc("AmmoProviderMC", cfg, workers=2, heap="3g", deadlock=False, timeout=900)
+        return job, vlib.tlc("AmmoProviderMC", cfg, workers=1, heap="2g", deadlock=False, timeout=600)
 
-    jobs = [("gen", gen_cfg), ("gen", "AmmoProvider_gen_large.cfg")] + [("exh", c) for c in exh] + [("neg", "AmmoProvider_neg_%s.cfg" % n) for n in NEGS]
+    jobs = [("exh", c) for c in exh] + [("gen", gen_cfg)] + [("neg", "AmmoProvider_neg_%s.cfg" % n) for n in negs]
     vlib.spec_copy()
     b = vlib.harness_build()
-    with ThreadPoolExecutor(max_workers=4) as ex:
+    with ThreadPoolExecutor(max_workers=3) as ex:
         results = list(ex.map(one, jobs))
-    tables = {}
+    cases = None
     for (kind, cfg), r in results:
         vlib.log("TLC %s %s: %.1fs, %d distinct states" % (kind, cfg, r.wall, r.distinct))
         if kind == "exh":
@@ -138,14 +179,13 @@ def run(tier, v):
             vlib.tlc_must_fail(r, cfg)
         else:
             vlib.tlc_must_pass(r, cfg)
-            tables[cfg] = cases_from(r)
-            if len(tables[cfg]) != r.distinct or not tables[cfg]:
-                raise vlib.MachineryError("case export %s: %d cases for %d cells" % (cfg, len(tables[cfg]), r.distinct))
-    # 2. M2: the whole matrix (+ the large-file table) through the real providers
-    d = vlib.scratch()
-    cases = tables[gen_cfg] + tables["AmmoProvider_gen_large.cfg"]
-    if len({c_["id"] for c_ in cases}) != len(cases):
-        raise vlib.MachineryError("case ids are not unique")
+            cases = cases_from(r)
+            if len(cases) != r.distinct or len({c_["id"] for c_ in cases}) != len(cases):
+                raise vlib.MachineryError("case export: %d cases for %d cells" % (len(cases), r.distinct))
+    nrand = sum(1 for c_ in cases if c_["id"] >= RAND_BASE)
+    if nrand < 100:
+        raise vlib.MachineryError("only %d random cells survived" % nrand)
+    # 2. M2: the whole table through the real providers
     cpath = os.path.join(d, "cases.ndjson")
     vlib.write_ndjson(cpath, cases)
     opath = os.path.join(d, "obs.ndjson")
@@ -153,27 +193,21 @@ def run(tier, v):
     vlib.run_driver(b, ["ammoprov", "-cases", cpath, "-out", opath, "-hang", "5s", "-par", "6"], timeout=2400)
     drv_wall = time.time() - t0
     rows = vlib.read_ndjson(opath)
-    # 3. M1: TLC compares cell by cell, one run per table (each must be exactly its matrix)
-    bad, tstates, twall = set(), 0, 0.0
-    for gcfg, tcfg in ((gen_cfg, "TraceAmmoProvider_big.cfg" if thorough else "TraceAmmoProvider.cfg"),
-                       ("AmmoProvider_gen_large.cfg", "TraceAmmoProvider_large.cfg")):
-        ids = {c_["id"] for c_ in tables[gcfg]}
-        part = [o for o in rows if o["id"] in ids]
-        ppath = os.path.join(d, "obs_%s.ndjson" % tcfg)
-        vlib.write_ndjson(ppath, part)
-        tr, bad_ = validate(v, ppath, part, tcfg, 3000 if thorough else 600)
-        bad |= bad_
-        tstates += tr.distinct
-        twall += tr.wall
-    vlib.log("TraceAmmoProvider: %.1fs for %d cells" % (twall, len(rows)))
+    # 3. M1: TLC compares cell by cell; the recorded cells must be exactly the tier's table (+ the random cells)
+    tr = trace_tlc(opath, "TraceAmmoProvider_thorough.cfg" if thorough else "TraceAmmoProvider.cfg",
+                   3000 if thorough else 900, 6)
+    bad = judge(v, tr, rows)
+    vlib.log("TraceAmmoProvider: %.1fs for %d cells" % (tr.wall, len(rows)))
     skipped = [o for o in rows if o["skipped"]]
     if skipped and not bad:
         raise vlib.MachineryError("%d cells skipped without a blocked cell" % len(skipped))
     kinds = sorted({(o["kind"], o["preload"]) for o in rows})
     nontrivial = len({(o["kind"], o["preload"], o["limit"], o["passes"], tuple(o["w"]), o["nc"], o["cut"])
                       for o in rows if not o["skipped"] and (o["limit"] or o["passes"] or o["cut"])})
-    samples = [{k: o[k] for k in ("kind", "preload", "limit", "passes", "w", "nc", "cut", "shape", "via", "count", "hist", "eofs",
+    samples = [{k: o[k] for k in ("kind", "preload", "limit", "passes", "nc", "cut", "shape", "via", "count", "eofs",
                                   "run_class", "cancelled", "drained", "eof_after", "ret_us", "eng_class", "eng_shots")}
+               | {"w": o["w"] if len(o["w"]) < 8 else "%d x 1" % len(o["w"]),
+                  "hist": o["hist"] if len(o["hist"]) < 8 else o["hist"][:4] + ["..."]}
                for o in rows[5::max(1, len(rows) // 6)]][:6]
     ret = sorted(o["ret_us"] for o in rows if o["cancelled"] and o["run_ret"])
     cov = {
@@ -182,19 +216,23 @@ def run(tier, v):
         "samples": samples,
         "exhaustive": True,
         "evaluations": len(rows), "distinct_nontrivial": nontrivial,
-        "rule": "every cell of kind x preload x limit x passes x weights x consumers x cut enumerated by TLC "
-                "(AmmoProvider_gen); non-trivial = at least one of limit, passes, cut is set (the others are the "
-                "unbounded cells cut at 2E+3)",
+        "rule": "every cell of kind x preload x limit x passes x weights x consumers x cut of the tier's table "
+                "enumerated by TLC (AmmoProviderMC!QuickTable / ThoroughTable), plus seeded random cells of larger "
+                "sizes whose run parameters TLC computes; non-trivial = at least one of limit, passes, cut is set "
+                "(the others are the unbounded cells cut at 2E+3)",
         "provider_kind_modes": len(kinds),
+        "matrix_cells": len(cases) - nrand,
+        "random_cells": nrand,
+        "max_entries": max(c_["entries"] for c_ in cases),
+        "max_delivered": max(o["count"] for o in rows),
         "engine_runs": sum(1 for o in rows if o["eng"]),
         "cells_skipped_after_blocked": len(skipped),
         "second_attempts": sum(1 for o in rows if o["attempts"] > 1 or o["eng_attempts"] > 1),
         "return_after_cancel_us_median_max": [ret[len(ret) // 2], ret[-1]] if ret else [],
-        "trace_spec_states": tstates,
-        "large_file_cells": len(tables["AmmoProvider_gen_large.cfg"]),
         "config_routes": sorted({o["via"] + "/" + o["shape"] for o in rows}),
+        "trace_spec_states": tr.distinct,
         "driver_wall_s": round(drv_wall, 1),
-        "negative_controls": NEGS,
+        "negative_controls": negs,
         "design_configs": exh,
     }
     return "model_checking", cov, [
@@ -214,8 +252,8 @@ def replay(path, v):
     vlib.write_ndjson(cpath, [case])
     vlib.run_driver(b, ["ammoprov", "-cases", cpath, "-out", opath, "-hang", "5s"], timeout=300)
     rows = vlib.read_ndjson(opath)
-    cfg = "TraceAmmoProvider_large.cfg" if len(o["w"]) > 4 or max(o["w"]) > 6 else "TraceAmmoProvider_big.cfg"
-    tr = vlib.tlc("TraceAmmoProvider", cfg, env={"VERIF_TRACE": opath}, cont=True, workers=1)
+    cfg = "TraceAmmoProvider_replay.cfg"   # no matrix membership for a single replayed cell
+    tr = trace_tlc(opath, cfg, 600, 1)
     if tr.error:
         raise vlib.MachineryError("TraceAmmoProvider failed: %s\n%s" % (tr.kind, tr.out[-3000:]))
     for inv, st in tr.all_violations:
